@@ -513,7 +513,7 @@ func cmdCheck(args []string) int {
 		if fnClass[a] == "P" {
 			continue // proved in this very run
 		}
-		if strings.Contains(a, ": only obligations of kind") {
+		if strings.Contains(a, ": only obligations of kind") || strings.Contains(a, "are not claimed (not discharged within this function's contract)") {
 			assumptions = append(assumptions, "partial claim: "+a)
 			continue
 		}
